@@ -22,7 +22,7 @@ RULE = (
 ASSUMPTIONS = ["per-cell pixel tables are sorted by (bin1_id, bin2_id) as create_scool documents"]
 
 CELL_NAMES = st.one_of(
-    st.sampled_from(["cell1", "cell2", "cell10", "cell_a", "A", "b", "GSM123.1", "c-1", "10", "9", "x y"]),
+    st.sampled_from(["cell1", "cell2", "cell10", "cell_a", "A", "b", "GSM123.1", "c-1", "10", "9", "x y", "sample_A", "esc_1", "l1", "s", "cells", "ce"]),
     st.text("abcdefghijklmnopqrstuvwxyzABCDEFGHIJKLMNOPQRSTUVWXYZ0123456789_.-", min_size=1, max_size=10),
 ).filter(lambda s: s not in (".", ".."))
 
@@ -42,7 +42,8 @@ def cases(draw):
             "dict_order": draw(st.permutations(names)), "metadata": draw(st.sampled_from([None, {"lab": "x", "n": 3}])),
             # history: the path first holds an ordinary cooler (and is asked about) before the single-cell file replaces it
             "prior": draw(st.sampled_from([None, None, "cooler", "scool"])),
-            "count_dtype": draw(st.sampled_from([None, None, "float64", "int64"]))}
+            "count_dtype": draw(st.sampled_from([None, None, "float64", "int64"])),
+            "key_form": draw(st.sampled_from(["plain", "plain", "listing"]))}
 
 
 def _natkey(s):
@@ -87,7 +88,11 @@ def check_scool(case, ctx: Ctx):
             return {k: df[k].to_numpy() for k in df.columns}
         return iter([pixel_frame(c, ["count", "x"]) for c in gen.split_at(rows, [min(c, len(rows)) for c in case["cuts"]])])
 
-    pixels_arg = {nm: px(cells[nm]) for nm in case["dict_order"]}
+    # keys may be spelled the way list_scool_cells() returns them ("/cells/<name>"): the cell is stored under <name>
+    kf = (lambda nm: "/cells/" + nm) if case.get("key_form") == "listing" else (lambda nm: nm)
+    pixels_arg = {kf(nm): px(cells[nm]) for nm in case["dict_order"]}
+    if case.get("key_form") == "listing" and isinstance(bins_arg, dict):
+        bins_arg = {kf(nm): v for nm, v in bins_arg.items()}
     path = ctx.tmp(".scool")
     kw = {}
     cdt = case.get("count_dtype")
